@@ -210,7 +210,7 @@ pub fn families(prop: &str, tier: Tier) -> Vec<Family> {
             f.push(Family { stateless_depth: 0, name: "multibyte+newline".into(), cfgs: newline_cfgs(), inputs: inputs(&['a', 'b', '\n', 'é'], if q { 3 } else { 4 }), ops, describe: "newline/multi-byte configurations of C09".into() });
         }
         "C11" => {
-            let ops = OpSet { next: true, peeks: vec![0, 1, 2, usize::MAX], adv: vec![], offsets: Offsets::None, set_modes: true, with_positions: false, positions: false };
+            let ops = OpSet { next: true, peeks: vec![0, 1, 2, usize::MAX, usize::MAX - 1], adv: vec![], offsets: Offsets::None, set_modes: true, with_positions: false, positions: false };
             let lists = pattern_lists();
             f.push(Family { stateless_depth: 0, name: "mode-graphs-2 (subset)".into(), cfgs: mode_graphs(2, &lists, if q { 7 } else { 1 }), inputs: inputs(&['a', 'b', 'x'], if q { 3 } else { 4 }), ops: ops.clone(), describe: "2 modes x 6 pattern lists x every 7th (thorough: every) transition table".into() });
             f.push(Family { stateless_depth: 0, name: "gaps".into(), cfgs: gap_cfgs(), inputs: inputs(&['a', 'b', 'x', '\n'], if q { 4 } else { 5 }), ops: ops.clone(), describe: "pattern sets with characters nothing matches".into() });
